@@ -396,3 +396,93 @@ func init() {
 		return nil
 	}
 }
+
+// ---- sync.Map: a small intrinsic (the real one is lock-free code over unsafe pointers).  The
+// engine map lives in the first field of the sync.Map struct.  A store into a sync.Map that is
+// reachable from a package-level variable is STATE SHARED BETWEEN RUNTIMES: it is race-free, so the
+// data-race half of the global-write monitor does not apply, but it is recorded as a global write of
+// kind "sync.Map" because what one runtime stores another one reads.
+func init() {
+	anyT := types.NewInterfaceType(nil, nil)
+	smap := func(fr *frame, recv value, create bool) (*omap, *value) {
+		p, ok := recv.(*value)
+		if !ok || p == nil {
+			fr.i.rtPanic("invalid memory address or nil pointer dereference")
+		}
+		st, ok := (*p).(structure)
+		if !ok || len(st) == 0 {
+			fr.i.abort("unsupported", "sync.Map receiver of unexpected shape")
+		}
+		if m, ok := st[0].(*omap); ok && m != nil {
+			return m, p
+		}
+		if !create {
+			return nil, p
+		}
+		m := makeMap(anyT)
+		fr.i.setCell(&st[0], m)
+		return m, p
+	}
+	shared := func(fr *frame, p *value, what string) {
+		in := fr.i
+		if in.globalCells != nil && in.path != nil && in.globalCells[p] && len(in.globalWrites) < 32 {
+			in.globalWrites = append(in.globalWrites, "sync.Map "+what+" (state shared between runtimes) in "+fnName(fr))
+		}
+	}
+	externals["(*sync.Map).Load"] = func(fr *frame, args []value) value {
+		m, _ := smap(fr, args[0], false)
+		if i := fr.i.mapFind(fr, m, args[1]); i >= 0 {
+			return tuple{m.ents[i].v, true}
+		}
+		return tuple{iface{}, false}
+	}
+	externals["(*sync.Map).Store"] = func(fr *frame, args []value) value {
+		m, p := smap(fr, args[0], true)
+		shared(fr, p, "Store")
+		fr.i.mapSet(fr, m, args[1], args[2])
+		return nil
+	}
+	externals["(*sync.Map).LoadOrStore"] = func(fr *frame, args []value) value {
+		m, p := smap(fr, args[0], true)
+		if i := fr.i.mapFind(fr, m, args[1]); i >= 0 {
+			return tuple{m.ents[i].v, true}
+		}
+		shared(fr, p, "LoadOrStore")
+		fr.i.mapSet(fr, m, args[1], args[2])
+		return tuple{args[2], false}
+	}
+	externals["(*sync.Map).LoadAndDelete"] = func(fr *frame, args []value) value {
+		m, p := smap(fr, args[0], false)
+		if i := fr.i.mapFind(fr, m, args[1]); i >= 0 {
+			v := m.ents[i].v
+			shared(fr, p, "LoadAndDelete")
+			fr.i.mapDelete(fr, m, args[1])
+			return tuple{v, true}
+		}
+		return tuple{iface{}, false}
+	}
+	externals["(*sync.Map).Delete"] = func(fr *frame, args []value) value {
+		m, p := smap(fr, args[0], false)
+		if m != nil {
+			shared(fr, p, "Delete")
+			fr.i.mapDelete(fr, m, args[1])
+		}
+		return nil
+	}
+	externals["(*sync.Map).Range"] = func(fr *frame, args []value) value {
+		m, _ := smap(fr, args[0], false)
+		if m == nil {
+			return nil
+		}
+		ents := append([]mapEnt(nil), m.ents...)
+		for _, e := range ents {
+			if !e.live {
+				continue
+			}
+			if r := call(fr.i, fr, 0, args[1], []value{e.k, e.v}); r != true {
+				break
+			}
+		}
+		return nil
+	}
+}
